@@ -968,6 +968,11 @@ pub fn exec(line: &str, rec: &mut Recorder) {
             }
             None => rec.stat("skipped.unparsable-case"),
         },
+        Some(&"hl") => {
+            if e2e::exec_hl(&t, rec).is_none() {
+                rec.stat("skipped.unparsable-case");
+            }
+        }
         Some(&"srv") => {
             if e2e::exec_srv(&t, rec).is_none() {
                 rec.stat("skipped.unparsable-case");
@@ -1678,6 +1683,7 @@ pub fn run(o: &Opts, rec: &mut Recorder) {
     }
     enumerate(o, rec);
     e2e::run(o, rec);
+    e2e::run_hl(rec);
 }
 
 // ------------------------------------------------------------------ end to end (server proofs)
@@ -1742,24 +1748,52 @@ mod e2e {
         anchors: Arc<TrustAnchors>,
     }
 
-    /// in-process `DnsHandle`: one request → the catalog's response
+    /// what the upstream does with the catalog's answer to one query (handle-level families)
+    type Mutator = Arc<dyn Fn(&Query, DnsResponse) -> DnsResponse + Send + Sync>;
+
+    /// in-process `DnsHandle`: one request → the catalog's response.  `child`: a second catalog that
+    /// answers everything at or below `child.0` except DS queries for that name (as the child zone's
+    /// servers would); `mutate`: applied to the answer (a hostile or broken upstream).
     #[derive(Clone)]
-    struct CatalogHandle(Arc<Catalog>);
+    struct CatalogHandle {
+        catalog: Arc<Catalog>,
+        child: Option<(Name, Arc<Catalog>)>,
+        mutate: Option<Mutator>,
+    }
+
+    impl CatalogHandle {
+        fn plain(catalog: Arc<Catalog>) -> Self {
+            Self { catalog, child: None, mutate: None }
+        }
+    }
+
+    async fn ask_catalog(catalog: &Catalog, request: &DnsRequest) -> Result<DnsResponse, NetError> {
+        let bytes = request.to_bytes().map_err(|e| NetError::from(format!("encode: {e}")))?;
+        let addr: SocketAddr = "127.0.0.1:5353".parse().unwrap();
+        let req = Request::from_bytes(bytes, addr, Protocol::Tcp).map_err(|e| NetError::from(format!("request: {e}")))?;
+        let cap = Capture::default();
+        catalog.handle_request::<_, TokioTime>(&req, cap.clone()).await;
+        let buf = cap.0.lock().unwrap().clone();
+        DnsResponse::from_buffer(buf).map_err(|e| NetError::from(format!("decode: {e}")))
+    }
 
     impl DnsHandle for CatalogHandle {
         type Response = Pin<Box<dyn Stream<Item = Result<DnsResponse, NetError>> + Send>>;
         type Runtime = TokioRuntimeProvider;
 
         fn send(&self, request: DnsRequest) -> Self::Response {
-            let catalog = self.0.clone();
+            let me = self.clone();
             Box::pin(stream::once(async move {
-                let bytes = request.to_bytes().map_err(|e| NetError::from(format!("encode: {e}")))?;
-                let addr: SocketAddr = "127.0.0.1:5353".parse().unwrap();
-                let req = Request::from_bytes(bytes, addr, Protocol::Tcp).map_err(|e| NetError::from(format!("request: {e}")))?;
-                let cap = Capture::default();
-                catalog.handle_request::<_, TokioTime>(&req, cap.clone()).await;
-                let buf = cap.0.lock().unwrap().clone();
-                DnsResponse::from_buffer(buf).map_err(|e| NetError::from(format!("decode: {e}")))
+                let query = request.queries.first().cloned();
+                let catalog = match (&me.child, &query) {
+                    (Some((cn, cc)), Some(q)) if cn.zone_of(&q.name) && !(q.query_type == RecordType::DS && q.name == *cn) => cc.clone(),
+                    _ => me.catalog.clone(),
+                };
+                let resp = ask_catalog(&catalog, &request).await?;
+                Ok(match (&me.mutate, &query) {
+                    (Some(m), Some(q)) => m(q, resp),
+                    _ => resp,
+                })
             }))
         }
     }
@@ -1816,7 +1850,7 @@ mod e2e {
     /// (raw response with DO set, verdict of the validator: Ok / error text)
     fn ask(rt: &tokio::runtime::Runtime, srv: &Srv, q: &Name, t: u16) -> (Option<DnsResponse>, Result<DnsResponse, String>) {
         rt.block_on(async {
-            let inner = CatalogHandle(srv.catalog.clone());
+            let inner = CatalogHandle::plain(srv.catalog.clone());
             let mut opts = DnsRequestOptions::default();
             opts.use_edns = true;
             opts.edns_set_dnssec_ok = true;
@@ -2042,6 +2076,278 @@ mod e2e {
                 format!("completeness: DnssecDnsHandle rejects the server's response for {} type {} (rcode {}, {} answers) although verify_nsec3 says Secure: {e} — zone {}", q, t, rcode, n_answers, describe_spec(z)),
                 "",
             );
+        }
+    }
+
+    // -------------------------------------------------------------- handle-level families (`hl …` lines)
+    //
+    // Everything here goes through `DnssecDnsHandle::send` (hence `clone_with_context` and
+    // `verify_response`) with NON-DEFAULT configuration or a hostile upstream; expectations by construction.
+    //   hl limits <soft|-> <hard|-> <iterations> <nested 0|1>   configured NSEC3 iteration limits must reach
+    //        verify_nsec3, at the top level and in the nested DS lookup for an insecure child zone
+    //   hl config <anchors-wrong|anchors-default|cache1|ttl|depth0>   every other configurable field
+    //   hl inject <forged+sibling|forged-alone|genuine-only>   an UNSIGNED NSEC3 next to a signed RRset of the same owner
+
+    pub const CL_INJECT: &str = "unsigned-nsec3-used-because-sibling-rrset-of-same-owner-is-secure";
+
+    fn classify(r: &Result<DnsResponse, NetError>) -> String {
+        match r {
+            Ok(resp) => {
+                let all = || resp.answers.iter().chain(resp.authorities.iter());
+                if all().any(|r| r.proof == Proof::Secure) {
+                    "ok-secure".into()
+                } else if all().any(|r| r.proof == Proof::Bogus) {
+                    "ok-bogus".into()
+                } else if all().any(|r| r.proof == Proof::Insecure) {
+                    "ok-insecure".into()
+                } else {
+                    "ok-indeterminate".into()
+                }
+            }
+            Err(NetError::Dns(hickory_net::DnsError::Nsec { proof, .. })) => format!("err-nsec-{}", proof_str(*proof)),
+            Err(_) => "err-other".into(),
+        }
+    }
+
+    fn hl_zone(iterations: u16, wildcard: bool) -> ZoneSpec {
+        let apex = Name::from_ascii("z.").unwrap();
+        let mut names: BTreeMap<Lbls, BTreeSet<u16>> = BTreeMap::new();
+        names.insert(lbls(&apex), apex_types());
+        names.insert(rel_name(&apex, &[b"a"]), [T_A].into_iter().collect());
+        names.insert(rel_name(&apex, &[b"c"]), [T_NS].into_iter().collect()); // insecure delegation to the child zone c.z.
+        if wildcard {
+            names.insert(rel_name(&apex, &[b"*"]), [T_A].into_iter().collect());
+        }
+        ZoneSpec { apex, names, salt: vec![0xaa], iterations, opt_out: false }
+    }
+
+    /// the unsigned child zone c.z. with x.c.z. A
+    fn child_catalog() -> (Name, Arc<Catalog>) {
+        let apex = Name::from_ascii("c.z.").unwrap();
+        let mut h = InMemoryZoneHandler::<TokioRuntimeProvider>::empty(apex.clone(), ZoneType::Primary, AxfrPolicy::Deny, None);
+        let soa = SOA::new(Name::from_ascii("ns.elsewhere.").unwrap(), Name::from_ascii("h.elsewhere.").unwrap(), 1, 3600, 300, 3600000, 300);
+        h.upsert_mut(Record::from_rdata(apex.clone(), 300, RData::SOA(soa)), 0);
+        h.upsert_mut(Record::from_rdata(apex.clone(), 300, RData::NS(NS(Name::from_ascii("ns.elsewhere.").unwrap()))), 0);
+        h.upsert_mut(Record::from_rdata(Name::from_ascii("x.c.z.").unwrap(), 300, RData::A(A::new(192, 0, 2, 9))), 0);
+        let mut catalog = Catalog::new();
+        catalog.upsert(apex.clone().into(), vec![Arc::new(h)]);
+        (apex, Arc::new(catalog))
+    }
+
+    fn send_through(rt: &tokio::runtime::Runtime, handle: &DnssecDnsHandle<CatalogHandle>, q: &Name, t: u16, max_depth: Option<usize>) -> Result<DnsResponse, NetError> {
+        rt.block_on(async {
+            let mut opts = DnsRequestOptions::default();
+            opts.use_edns = true;
+            opts.edns_set_dnssec_ok = true;
+            opts.recursion_desired = false;
+            if let Some(d) = max_depth {
+                opts.max_request_depth = d;
+            }
+            match handle.send(DnsRequest::from_query(Query::new(q.clone(), RecordType::from(t)), opts)).next().await {
+                Some(r) => r,
+                None => Err(NetError::from("no result")),
+            }
+        })
+    }
+
+    fn hl_record(rec: &mut Recorder, line: String, got: &str, ok: bool, what: String, class: &str) {
+        if std::env::var_os("C09_HL_DEBUG").is_some() {
+            eprintln!("{line} => {got}");
+        }
+        rec.impl_only += 1;
+        let idx = rec.case(line, "~".into());
+        rec.nontrivial(idx);
+        rec.stat(&format!("hl.{}", if ok { "as-expected" } else { "unexpected" }));
+        rec.stat(&format!("hl.outcome.{got}"));
+        if !ok {
+            rec.fail(idx, what, class);
+        }
+    }
+
+    /// outcome of the nested scenario under the DEFAULT limits for an iteration count within both limits (0),
+    /// above the soft (1), above the hard limit (2)
+    fn nested_reference(rt: &tokio::runtime::Runtime, pos: usize) -> Option<String> {
+        thread_local! {
+            static REF: std::cell::RefCell<[Option<String>; 3]> = const { std::cell::RefCell::new([None, None, None]) };
+        }
+        if let Some(v) = REF.with(|r| r.borrow()[pos].clone()) {
+            return Some(v);
+        }
+        let z = hl_zone([15u16, 150, 600][pos], false);
+        let srv = build(&z)?;
+        let mut inner = CatalogHandle::plain(srv.catalog.clone());
+        inner.child = Some(child_catalog());
+        let handle = DnssecDnsHandle::with_trust_anchor(inner, srv.anchors.clone());
+        let got = classify(&send_through(rt, &handle, &Name::from_ascii("x.c.z.").unwrap(), T_A, None));
+        REF.with(|r| r.borrow_mut()[pos] = Some(got.clone()));
+        Some(got)
+    }
+
+    fn hl_limits(rec: &mut Recorder, rt: &tokio::runtime::Runtime, soft: Option<u16>, hard: Option<u16>, iterations: u16, nested: bool) -> Option<()> {
+        let z = hl_zone(iterations, false);
+        let srv = build(&z)?;
+        let mut inner = CatalogHandle::plain(srv.catalog.clone());
+        if nested {
+            inner.child = Some(child_catalog());
+        }
+        let handle = DnssecDnsHandle::with_trust_anchor(inner, srv.anchors.clone()).nsec3_iteration_limits(soft, hard);
+        let (es, eh) = (soft.unwrap_or(100), hard.unwrap_or(500));
+        let line = format!("hl limits {} {} {} {}", opt_tok(&soft), opt_tok(&hard), iterations, b(nested));
+        if nested {
+            // the no-DS proof for the insecure delegation c.z. is validated by a nested clone of the handle
+            // (request_depth > 0).  Expectation by construction: the outcome depends on the iteration count
+            // only through its position relative to the EFFECTIVE limits, so it must equal the outcome of the
+            // same scenario under the default limits (100 / 500) with an iteration count in the same position.
+            let got = classify(&send_through(rt, &handle, &Name::from_ascii("x.c.z.").unwrap(), T_A, None));
+            let pos = if iterations > eh { 2 } else if iterations > es { 1 } else { 0 };
+            let want = nested_reference(rt, pos)?;
+            hl_record(rec, line, &got, got == want, format!("handle configured with nsec3_iteration_limits({soft:?}, {hard:?}), parent zone signed with {iterations} NSEC3 iterations ({}), unsigned child answer for x.c.z. A through the nested DS lookup: got {got}, expected {want} (what the default limits give for an iteration count in the same position): the configured limits must reach nested clones of the handle", ["within both limits", "above the soft limit", "above the hard limit"][pos]), "");
+        } else {
+            let want = if iterations > eh { "err-nsec-bogus" } else if iterations > es { "err-nsec-insecure" } else { "ok-secure" };
+            for (q, t) in [("b.z.", T_A), ("a.z.", T_TXT)] {
+                let got = classify(&send_through(rt, &handle, &Name::from_ascii(q).unwrap(), t, None));
+                hl_record(rec, line.clone(), &got, got == want, format!("handle configured with nsec3_iteration_limits({soft:?}, {hard:?}), zone signed with {iterations} NSEC3 iterations, {q} type {t}: DnssecDnsHandle::send gives {got}, expected {want} (effective limits soft {es} / hard {eh})"), "");
+            }
+        }
+        Some(())
+    }
+
+    fn hl_config(rec: &mut Recorder, rt: &tokio::runtime::Runtime, field: &str) -> Option<()> {
+        let z = hl_zone(3, false);
+        let srv = build(&z)?;
+        let inner = CatalogHandle::plain(srv.catalog.clone());
+        let queries = [("b.z.", T_A), ("a.z.", T_TXT), ("a.z.", T_A)];
+        let base = DnssecDnsHandle::with_trust_anchor(inner.clone(), srv.anchors.clone());
+        let (handle, depth, must_validate): (DnssecDnsHandle<CatalogHandle>, Option<usize>, Option<bool>) = match field {
+            "anchors-wrong" => {
+                let other = Ed25519SigningKey::from_pkcs8(&Ed25519SigningKey::generate_pkcs8().ok()?).ok()?;
+                let mut ta = TrustAnchors::empty();
+                ta.insert(&other.to_public_key().ok()?);
+                (DnssecDnsHandle::with_trust_anchor(inner, Arc::new(ta)), None, Some(false))
+            }
+            "anchors-default" => (DnssecDnsHandle::new(inner), None, Some(false)),
+            "cache1" => (base.clone().validation_cache_size(1), None, Some(true)),
+            "ttl" => (base.clone().negative_validation_ttl(Duration::from_secs(1)..=Duration::from_secs(2)).positive_validation_ttl(Duration::from_secs(1)..=Duration::from_secs(2)), None, Some(true)),
+            "depth0" => (base.clone(), Some(0), Some(false)),
+            _ => return None,
+        };
+        for (q, t) in queries {
+            let got = classify(&send_through(rt, &handle, &Name::from_ascii(q).unwrap(), t, depth));
+            let ok = match must_validate {
+                Some(true) => got == "ok-secure",
+                Some(false) => got != "ok-secure",
+                None => true,
+            };
+            hl_record(rec, format!("hl config {field}"), &got, ok, format!("handle with non-default {field}: {q} type {t} gives {got}, expected {}", if must_validate == Some(true) { "ok-secure (as with the defaults)" } else { "anything but a validated answer (no usable trust anchor / no validation depth)" }), "");
+        }
+        Some(())
+    }
+
+    fn hl_inject(rec: &mut Recorder, rt: &tokio::runtime::Runtime, variant: &str) -> Option<()> {
+        // zone with an apex wildcard: ANY owner name L.z. has a genuinely signed (wildcard-expanded) A RRset
+        let z = hl_zone(2, true);
+        let srv = build(&z)?;
+        let plain = CatalogHandle::plain(srv.catalog.clone());
+        let l_name = Name::from_ascii("00000000000000000000000000000000.z.").unwrap();
+        let (apex_nodata, sibling) = rt.block_on(async {
+            let mut opts = DnsRequestOptions::default();
+            opts.use_edns = true;
+            opts.edns_set_dnssec_ok = true;
+            let a = plain.send(DnsRequest::from_query(Query::new(z.apex.clone(), RecordType::TXT), opts)).next().await.and_then(|r| r.ok());
+            let b_ = plain.send(DnsRequest::from_query(Query::new(l_name.clone(), RecordType::A), opts)).next().await.and_then(|r| r.ok());
+            (a, b_)
+        });
+        let (apex_nodata, sibling) = (apex_nodata?, sibling?);
+        // SOA + RRSIG + the apex NSEC3 + RRSIG (genuine, signed): closest encloser z.
+        let mut authorities: Vec<Record> = apex_nodata.authorities.to_vec();
+        let forged = Record::from_rdata(
+            l_name.clone(),
+            300,
+            RData::DNSSEC(DNSSECRData::NSEC3(NSEC3::new(Nsec3HashAlgorithm::SHA1, false, z.iterations, z.salt.clone(), vec![0xff; 20], Vec::<RecordType>::new()))),
+        );
+        match variant {
+            "forged+sibling" => {
+                // the signed wildcard-expanded A RRset of owner L.z. (answer section of `L.z. A`) + the unsigned NSEC3 of the same owner
+                authorities.extend(sibling.answers.iter().cloned());
+                authorities.push(forged);
+            }
+            "forged-alone" => authorities.push(forged),
+            "genuine-only" => {}
+            _ => return None,
+        }
+        let target = Name::from_ascii("a.z.").unwrap(); // exists, has A
+        let tq = target.clone();
+        let mutate: Mutator = Arc::new(move |q: &Query, resp: DnsResponse| {
+            if q.name == tq && q.query_type == RecordType::A {
+                let mut m = resp.into_message();
+                m.metadata.response_code = ResponseCode::NXDomain;
+                m.answers.clear();
+                m.additionals.clear();
+                m.authorities = authorities.clone();
+                DnsResponse::from_message(m).expect("response")
+            } else {
+                resp
+            }
+        });
+        let mut inner = CatalogHandle::plain(srv.catalog.clone());
+        inner.mutate = Some(mutate);
+        let handle = DnssecDnsHandle::with_trust_anchor(inner, srv.anchors.clone());
+        let got = classify(&send_through(rt, &handle, &target, T_A, None));
+        let ok = got != "ok-secure" && got != "ok-insecure";
+        hl_record(
+            rec,
+            format!("hl inject {variant}"),
+            &got,
+            ok,
+            format!("hostile upstream answers a.z. A (exists) with NXDOMAIN: SOA, the signed apex NSEC3 and an UNSIGNED NSEC3 <L>.z. -> ff.. covering a.z. and *.z. ({variant}); DnssecDnsHandle::send gives {got}, expected an error: an NSEC3 record without a valid signature of its own must not take part in a proof"),
+            if variant == "forged+sibling" { CL_INJECT } else { "" },
+        );
+        Some(())
+    }
+
+    pub fn exec_hl(t: &[&str], rec: &mut Recorder) -> Option<()> {
+        let rt = tokio::runtime::Builder::new_current_thread().enable_all().build().ok()?;
+        let optu = |x: &str| -> Option<Option<u16>> { if x == "-" { Some(None) } else { x.parse::<u16>().ok().map(Some) } };
+        match *t.get(1)? {
+            "limits" => hl_limits(rec, &rt, optu(t.get(2)?)?, optu(t.get(3)?)?, t.get(4)?.parse().ok()?, *t.get(5)? == "1"),
+            "config" => hl_config(rec, &rt, t.get(2)?),
+            "inject" => hl_inject(rec, &rt, t.get(2)?),
+            _ => None,
+        }
+    }
+
+    pub fn run_hl(rec: &mut Recorder) {
+        let rt = tokio::runtime::Builder::new_current_thread().enable_all().build().unwrap();
+        // iterations between the configured and the default limits, in both directions, top level and nested
+        let limits: [(Option<u16>, Option<u16>, u16); 11] = [
+            (Some(10), None, 15),
+            (Some(10), Some(20), 25),
+            (None, Some(20), 25),
+            (Some(200), None, 150),
+            (Some(700), Some(800), 600),
+            (Some(10), Some(20), 5),
+            (None, None, 15),
+            (None, None, 150),
+            (None, None, 600),
+            (Some(0), Some(0), 0),
+            (Some(0), Some(0), 1),
+        ];
+        for (s_, h_, it) in limits {
+            for nested in [false, true] {
+                if hl_limits(rec, &rt, s_, h_, it, nested).is_none() {
+                    rec.stat("hl.setup-failed");
+                }
+            }
+        }
+        for f in ["anchors-wrong", "anchors-default", "cache1", "ttl", "depth0"] {
+            if hl_config(rec, &rt, f).is_none() {
+                rec.stat("hl.setup-failed");
+            }
+        }
+        for v in ["forged+sibling", "forged-alone", "genuine-only"] {
+            if hl_inject(rec, &rt, v).is_none() {
+                rec.stat("hl.setup-failed");
+            }
         }
     }
 
